@@ -33,7 +33,18 @@ def drive(draw, h, cfg):
         if c < 8:
             step(h, histprop.draw_build(draw, h, names, fail_p=0.2))
         elif c < 14:
-            step(h, histprop.draw_ext(draw, h, univ))
+            lc = getattr(h, 'last_committed', None)
+            made = sorted(h.relp(d) for d in (lc or {}).get('created', ()) if d.startswith(h.R + '/') and not h.protected(d))
+            if made and draw(st.sampled_from(range(4))) == 0:
+                # the user deletes a directory the build created (with everything in it) and makes one of his own there:
+                # the next build produces the same records, but the directory is no longer the build's
+                d = draw(st.sampled_from(made))
+                step(h, ['rm', d])
+                if not h.dead:
+                    step(h, ['mkdir', d])
+                h.stats['c12_created_dir_replaced_by_user_dir'] += 1
+            else:
+                step(h, histprop.draw_ext(draw, h, univ))
         else:
             step(h, ['clean'])
             k = draw(st.sampled_from(['', '', 'clean', 'build', 'build']))
@@ -60,4 +71,4 @@ def vacuity(counters, evaluations, tier):
 
 LEVEL_TEXT = ('Randomised exploration of histories with clean at every position against the reference model; idempotence and '
               'first-build equivalence are checked by construction of the histories.')
-LEVEL_NOTE = 'Trusted: the reference model\'s bookkeeping of outputs and created directories. Small-scope universe of 16 paths.'
+LEVEL_NOTE = 'Trusted: the reference model\'s bookkeeping of outputs and created directories. Small-scope universe of 20 paths.'
